@@ -170,6 +170,36 @@ theorem depth_agreement (hF : F.Lawful wfc) (hc : F.Consumes) (D d : Nat) (hd : 
     obtain ⟨k, e2⟩ := hdc.2 (by omega)
     simp [isOk, e1, e2, ha, hdv]
 
+/-- **Size bound.** A decoded value has fewer nodes than the payload has bytes (every node costs at
+least one input byte; two more for the prefix and the root kind): decoding cannot blow up. -/
+theorem decoded_size_bounded (hc : F.Consumes) (d : Nat) (bs : Bytes) (v : Value X Y)
+    (h : decodePayload F d bs = .ok v) : v.nodes + 2 ≤ bs.length := by
+  simp only [decodePayload] at h
+  cases hb : readByte bs with
+  | error e => simp [hb] at h
+  | ok p =>
+    obtain ⟨b, t⟩ := p
+    simp only [hb] at h
+    have h0 := readByte_shrinks _ _ _ hb
+    split at h
+    · simp at h
+    · simp only [decValue, decField] at h
+      cases hk : readValueKind F.kc t with
+      | error e => simp [hk] at h
+      | ok q =>
+        obtain ⟨vk, t'⟩ := q
+        simp only [hk] at h
+        have h1 := readValueKind_shrinks _ _ _ _ hk
+        cases hd : decBody F d d vk t' with
+        | error e => simp [hd] at h
+        | ok r =>
+          obtain ⟨v', rest⟩ := r
+          simp only [hd] at h
+          have h2 := decBody_nodes F hc d d _ _ _ _ hd
+          split at h
+          · simp at h
+          · simp at h; subst h; omega
+
 /-! ## The limit 0 (recorded finding `depth0-traverser-accepts-childless-value`) -/
 
 /-- With `max_depth = 0` the decoder rejects every byte string. -/
@@ -240,6 +270,7 @@ theorem prealloc_bounded (length : Nat) : prealloc length ≤ 1024 ∧ prealloc 
 
 -- depth of a nested value; empty containers count one level
 example : (Value.tuple [.array (.int .u8) [], .enum 0 [.tuple []]] : Value Empty Empty).depth = 3 := by decide
+example : (Value.tuple [.array (.int .u8) [], .enum 0 [.tuple []]] : Value Empty Empty).nodes = 4 := by decide
 -- a value of depth 3: accepted with limit 3, rejected for depth with limit 2, by all three
 example : encodePayload basic 3 (.tuple [.tuple [.bool true]]) = .ok [0x5b, 0x21, 0x01, 0x21, 0x01, 0x01, 0x01] := by rfl
 example : encodePayload basic 2 (.tuple [.tuple [.bool true]]) = .error (.maxDepthExceeded 2) := by rfl
